@@ -69,7 +69,7 @@ def main(argv):
         seed = int(os.environ.get("VERIF_SEED", "0"))
     except ValueError:
         seed = 0
-    jobs = args.jobs if args.jobs is not None else (min(16, os.cpu_count() or 1) if args.tier == "thorough" else 1)
+    jobs = args.jobs if args.jobs is not None else (min(16, os.cpu_count() or 1) if args.tier == "thorough" else min(4, os.cpu_count() or 1))
     t0 = time.time()
     ctx = Ctx(prop, os.path.abspath(args.repo), args.tier, seed, jobs, args.replay)
     try:
